@@ -144,7 +144,7 @@ def _formula(node):
             and not node.keywords and isinstance(node.args[0], (ast.GeneratorExp, ast.ListComp)) and len(node.args[0].generators) == 1:
         return _quantifier(node.func.id, node.args[0])
     if isinstance(node, ast.Call) and isinstance(node.func, ast.Name) and node.func.id == 'len' and len(node.args) == 1 and not node.keywords:
-        return ('atom', f'nonempty({ast.unparse(node.args[0])})')
+        return _nonempty(node.args[0])
     if isinstance(node, ast.IfExp):
         c, a, b = _formula(node.test), _formula(node.body), _formula(node.orelse)
         return ('or', [('and', [c, a]), ('and', [('not', c), b])])
@@ -187,6 +187,14 @@ def _quantifier(kind, gen):
     return ('not', a) if kind == 'all' else a
 
 
+def _nonempty(x):
+    if isinstance(x, ast.Constant) and isinstance(x.value, (str, bytes, tuple)):
+        return ('const', len(x.value) > 0)
+    if isinstance(x, (ast.List, ast.Tuple, ast.Set)) and not any(isinstance(e, ast.Starred) for e in x.elts):
+        return ('const', len(x.elts) > 0)
+    return ('atom', f'nonempty({ast.unparse(x)})')
+
+
 def _is_len(n):
     return isinstance(n, ast.Call) and isinstance(n.func, ast.Name) and n.func.id == 'len' and len(n.args) == 1 and not n.keywords
 
@@ -201,7 +209,7 @@ def _cmp_atom(l, op, r):
         flip = {ast.Lt: ast.Gt, ast.Gt: ast.Lt, ast.LtE: ast.GtE, ast.GtE: ast.LtE}
         l, r, op = r, l, flip.get(type(op), type(op))()
     if _is_len(l):
-        a = ('atom', f'nonempty({ast.unparse(l.args[0])})')
+        a = _nonempty(l.args[0])
         t = type(op)
         if (t in (ast.Gt, ast.NotEq) and _is_int(r, 0)) or (t is ast.GtE and _is_int(r, 1)):
             return a
